@@ -12,7 +12,7 @@ CLAIM = {
          "the real _calc_spanning_tree/_update_tree leave NO_FLOOD cleared on a set of inter-switch ports such that a frame flooded from any switch "
          "reaches every switch of its bidirectional component exactly once, all host-facing ports keep flooding, and this still holds after one link "
          "is toggled."
-         " Also: a failing second LinkEvent listener, expiry through a model of the recurring timer, and a switch that reboots or merely flaps its control channel (port configuration retained, topology changed meanwhile, both listener orders).",
+         " Also: a failing second LinkEvent listener, expiry through a model of the recurring timer, and a switch that reboots or merely flaps its control channel (port configuration retained, topology changed meanwhile, both listener orders). O1_foreign_probe: MAC chassis ids and binary system descriptions; a self-loop cable in O3_forest.",
  'note': "O3 is bounded exhaustive enumeration of graphs driven by the solver (all inputs are presence bits). Trusted: CPython, z3, symx proxies "
          "incl. char-level text for the 'dpid:<hex>' / port-number TLVs, stub connections/nexus, the flood simulator in props/C19.py.",
 }
